@@ -1284,8 +1284,10 @@ class MemoryCache:
         try:
             self.refs[cache_key] = result
         except TypeError:
-            # primitives like ints, strs, and dicts can't be weakrefed
-            pass
+            # primitives like ints, strs, and dicts can't be weakrefed. A reference to an
+            # earlier result of this call must not outlive it: a caller may still hold that
+            # object, and it would be served once the new entry is evicted.
+            self.refs.pop(cache_key, None)
 
     @_synchronized
     def put(self, memento: Memento, result: object, has_result: bool):
